@@ -17,7 +17,7 @@ pub static PROP: PropDef = PropDef {
     builds: opt_and_dbg,
     max_tape: 360,
     cases: |t| match t {
-        Tier::Quick => 40_000,
+        Tier::Quick => 60_000,
         Tier::Thorough => 1_500_000,
     },
     fixed: no_fixed,
